@@ -48,10 +48,11 @@ theorem drop_succ_of_get {l : List Nat} {p j : Nat} (h : l[p]? = some j) : l.dro
   rw [this]
 
 /-- the locked take paragraph preserves the invariant -/
-theorem inv_take (k : Kind) (s : St) (x : Drainer) (hc : s.crash = false) (hdrs : s.drs = [x])
-    (hi : DInv k s x) (hw : waiting k x) : Inv k (take s 0 x) := by
+theorem inv_take (k : Kind) (big : Bool) (s : St) (x : Drainer) (hc : s.crash = false) (hdrs : s.drs = [x])
+    (hi : DInv k s x) (hw : waiting k x) : Inv k (take k big s 0 x) := by
   obtain ⟨hacc, hlog⟩ := hi.wait hw
   unfold take
+  rw [resetList_nil]
   split
   · rename_i hlen
     have hlen : s.list.length = x.taken := by simpa using hlen
@@ -125,7 +126,7 @@ theorem inv_step (k : Kind) (s s' : St) (a : Act) (h : Inv k s) (hs : step k s a
           refine ⟨?_, hlg⟩
           simp only
           rw [List.drop_append_of_le_length hi.le, ← List.append_assoc, ha]
-  | spawn d =>
+  | spawn d big =>
     simp only [step] at hs
     split at hs
     · rename_i y hy
@@ -147,7 +148,7 @@ theorem inv_step (k : Kind) (s s' : St) (a : Act) (h : Inv k s) (hs : step k s a
           | async =>
             simp only at hs
             cases hs
-            exact inv_take _ s y hc hd hi (.inr ⟨hph, rfl⟩)
+            exact inv_take _ big s y hc hd hi (.inr ⟨hph, rfl⟩)
         · cases hs
     · cases hs
   | start d =>
@@ -192,7 +193,7 @@ theorem inv_step (k : Kind) (s s' : St) (a : Act) (h : Inv k s) (hs : step k s a
             · simp only [hlg, serial_append]; simp
         · cases hs
     · cases hs
-  | next d =>
+  | next d big =>
     simp only [step] at hs
     split at hs
     · rename_i y hy
@@ -203,7 +204,7 @@ theorem inv_step (k : Kind) (s s' : St) (a : Act) (h : Inv k s) (hs : step k s a
         · rename_i hph
           have hph : y.ph = .finished := by simpa using hph
           cases hs
-          exact inv_take _ s y hc hd hi (.inl hph)
+          exact inv_take _ big s y hc hd hi (.inl hph)
         · cases hs
     · cases hs
   | close =>
